@@ -12,6 +12,7 @@
 (*          | <<"un", op, expr>> | <<"bin", op, expr, expr>> | <<"tern", cond, expr, expr>> *)
 (*          | <<"val", cond>>      a comparison or its negation in value position *)
 (*   cond ::= <<"cmp", op, expr, expr>> | <<"and", cond, cond>> | <<"or", cond, cond>> *)
+(*          | <<"cmp2", op1, expr, op2, expr, expr>>   chained comparison e1 op1 e2 op2 e3 *)
 (*          | <<"not", cond>> | <<"truth", expr>>                                *)
 (* Programs are drawn at random (RandomElement) so that one TLC run yields a      *)
 (* reproducible (seeded) sample; the one-statement programs r := e over all      *)
@@ -100,11 +101,20 @@ CapProgs == {<<<<"assign", "t", <<"c", 0>>>>,
                  <<<<"assign", "r", <<"bin", "+", <<"t">>, <<"c", 1>>>>>>>>>>>> :
                subj \in {<<"a">>, <<"bin", "&", <<"a">>, <<"c", 5>>>>, <<"b">>}}
 
+\* chained comparisons (lo <= a < hi) and logical operators over multi-bit operands taken as truth values
+IfR(c) == <<<<"if", c, <<<<"assign", "r", <<"c", 1>>>>>>, <<>>, <<<<"assign", "r", <<"c", 0>>>>>>>>>>
+MiscCondProgs ==
+    {IfR(<<"cmp2", o1, <<"c", 2>>, o2, <<"a">>, <<"c", 5>>>>) : o1 \in {"<", "<="}, o2 \in {"<", "<=", "=="}}
+    \cup {IfR(<<"cmp2", "<", <<"b">>, "<=", <<"a">>, <<"k">>>>)}
+    \cup {IfR(<<op, <<"truth", x>>, <<"truth", y>>>>) : op \in {"and", "or"},
+              x \in {<<"a">>, <<"bin", "&", <<"a">>, <<"c", 5>>>>}, y \in {<<"b">>, <<"k">>, <<"bin", "&", <<"a">>, <<"c", 2>>>>}}
+    \cup {IfR(<<"and", <<"truth", <<"a">>>>, <<"and", <<"truth", <<"b">>>>, <<"cmp", "<", <<"a">>, <<"c", 200>>>>>>>>)}
+
 VARIABLES id, prog, kind
 Init == IF Mode = "random"
         THEN /\ id \in 1..NProg /\ kind = (IF id % 3 = 0 THEN "propagate" ELSE "clock") /\ prog = RProg(id)
         ELSE IF Mode = "chains"
-        THEN /\ id = 0 /\ kind \in {"clock", "propagate"} /\ prog \in (ChainProgs \cup CapProgs)
+        THEN /\ id = 0 /\ kind \in {"clock", "propagate"} /\ prog \in (ChainProgs \cup CapProgs \cup MiscCondProgs)
         ELSE IF Mode = "nesting"
         THEN /\ id = 0 /\ kind = "propagate" /\ \E e \in Nest : prog = <<<<"assign", "r", e>>>>
         ELSE /\ id = 0 /\ kind \in {"clock", "propagate"} /\ \E e \in E1 : prog = <<<<"assign", "r", e>>>>
